@@ -247,6 +247,44 @@ func c12Units(tier string, seed int64) []Unit {
 			}
 		}})
 	}
+	// through the public Check with a time limit that is orders of magnitude more than needed:
+	// -rapid.shrinktime=5s on the virtual clock (1 ms per invocation) = 5000 invocations for a one-draw property
+	units = append(units, Unit{Name: "C12/through-Check/shrinktime=5s-is-enough", Run: func(c *Ctx) {
+		pick := map[string]bool{"Int16 x>=100": true, "Int16 x<=-257": true, "Int8 x>=127": true, "Uint8 x>=200": true, "Int64 x>=1099511627776": true,
+			"Int64 x<=-4611686018427387905": true, "Uint64 x>=9223372036854775808": true, "Uint32 x>=65537": true, "Int32 x<=-1": true, "Uint16 x>=1": true}
+		for _, cs := range cases {
+			if !pick[cs.name] {
+				continue
+			}
+			cs := cs
+			prog := &LazyProgram{Name: cs.name, Base: func(string, string) Beh { return BPass }, Body: func(t *rapid.T, e *Env) {
+				var out string
+				defer func() { e.cur.Draws = out }()
+				cs.prop(t, &out)
+			}}
+			for _, shrinkMS := range []int{5000, 30000, -1} {
+				found := 0
+				for sd := uint64(1); sd <= 40 && found < 6; sd++ {
+					env := NewEnv(nil, prog.Base)
+					log := RunCheck(prog, env, Config{Checks: 400, Seed: uint64(seed)*53 + sd, ShrinkMS: shrinkMS, NoFailFile: true, Name: "TestC12"})
+					c.R.Evals++
+					c.R.Transitions += int64(len(env.Invs))
+					v := log.Verdict()
+					if v.Class != "failed" {
+						continue
+					}
+					found++
+					last := env.Invs[len(env.Invs)-1]
+					c.Outcome(fmt.Sprintf("%s shrinktime=%dms -> %s", cs.name, shrinkMS, last.Draws), true)
+					if last.Draws != cs.want {
+						c.Violate(Violation{Sig: "C12 not-the-boundary-through-Check " + sigOf(cs.name), Detail: fmt.Sprintf("%s, -rapid.seed=%d, -rapid.shrinktime=%dms on a clock that advances 1 ms per invocation (%d invocations happened): Check presents %s, the exact boundary is %s", cs.name, uint64(seed)*53+sd, shrinkMS, len(env.Invs), last.Draws, cs.want),
+							Replay: map[string]any{"engine": "check", "case": cs.name, "seed": uint64(seed)*53 + sd, "shrinkms": shrinkMS}})
+					}
+				}
+				c.Count("failing_runs_through_check", int64(found))
+			}
+		}
+	}})
 	// collections: at least k elements
 	type collKind struct {
 		name string
